@@ -50,6 +50,15 @@ CHECKS = {
  "C17": ("exploration", "exhaustive enumeration of enum domains against harness name tables under recover()",
    "String/Extension/TagName/FromString/Identify* are called on every value of every exported enum and identifier type (incl. negative halves and IfdType x tag id) and compared with tables written from the doc comments and the value lists they cite.",
    "Trusted: the harness's name tables.", "3/C17"),
+ "C18": ("exploration", "guard-page sanitizer (mmap + PROT_NONE + canary slack, SetPanicOnFault) around the assembly operands; side-by-side bit comparison asm vs portable through verif exports; direct float64 DCT-II reference",
+   "Every unit impulse of the 64/256-point kernels at 8 signed scales and all 4096 impulses of the 2-D kernel (exhaustive), edge vectors and seeded random vectors over 12 decades are run through the portable and the assembly kernel (operand flush against a PROT_NONE page, both placements) and compared bit for bit; the portable result is compared with a direct O(N^2) float64 DCT-II under the stated L1-relative bound; the exported dispatchers and the Alt hashes are run with the kernel selection switched both ways. A self-test shows a deliberate overrun faulting.",
+   "Trusted: mmap/mprotect and Go's fault-to-panic conversion; the float64 reference DCT; only this CPU (AVX2). One listed known finding (256-point kernel, centre-mass inputs).", "3/C18"),
+ "C19": ("exploration", "reference-model monitor: independent float64 2-D DCT-II of the converted luminance vs hash bits (median-threshold oracle with rounding margin); metamorphic repeats (poisoned pools, shifted origins, primary vs alternative); exhaustive size lattice for rejection",
+   "Seeded images of the required size (RGBA, NRGBA with and without alpha, Gray, YCbCr 4:4:4; eight content families incl. the repository photographs) are hashed by all applicable functions; bits are compared with the coefficients of an independent DCT-II of the luminance, the luminance itself with the defining formula; hashes must be identical on repetition, after pool poisoning and at shifted origins / SubImage views. Every size of the lattice [0,70]^2 and [250,260]^2 (minus the accepted one), further sizes and nil must be rejected by all four functions, also with poisoned pools. Distance identities on random and edge hashes.",
+   "Trusted: the float64 reference DCT; float32 margins derived from the kernel errors C18 measures; verif pool hooks.", "3/C19"),
+ "C20": ("exploration", "guard-page sanitizer on all four operands (three planes + destination, pool buffers via the allocator hook) + per-pixel comparison with the portable formula at corresponding coordinates",
+   "YCbCr images of the accepted sizes over six subsampling ratios x six origins x three stride layouts x four contents are built with minimal-length planes, each plane and the destination flush against PROT_NONE pages; ImageToGray, AsmYCbCrToGray (aligned and misaligned destination), Rgb2GrayFast and the four hash functions run on them; every pixel must be within 2.0 of the portable formula at the corresponding coordinates, nothing may fault or touch canary slack, and each hash must satisfy the C19 oracle on the verified luminance.",
+   "Trusted: mmap/mprotect, Go's fault-to-panic conversion; image.YCbCr's own YOffset/COffset as the definition of 'corresponding coordinates'.", "3/C20"),
 }
 NOT_APPLICABLE = []
 def main():
